@@ -47,3 +47,11 @@ Theorem C12_published_le_local :
   (MRB.Conc.RAx.det (MRB.Conc.RAx.C c) = false -> MRB.Conc.RAx.publishedC c = MRB.Conc.RAx.pos (MRB.Conc.RAx.C c)).
 Proof. exact MRB.Conc.RAxproof.published_le_local. Qed.
 Print Assumptions C12_published_le_local.
+
+(** THREE stages with reset_index / detach / sync_index / attach on the WORKER and the consumer, under concurrency (Conc/RA3x.v) *)
+Require MRB.Conc.RA3xproof.
+Theorem C12_published_le_local_three_stages :
+  forall (len : nat) (script : list (RA3.tid * RA3x.cmd)), 0 < len -> let c := RA3x.exec3_x len (RA3x.init3_x len) script in (RA3x.publishedW3 c <= RA3x.pos3 (RA3x.W3 c) /\ (RA3x.det3 (RA3x.W3 c) = false -> RA3x.publishedW3 c = RA3x.pos3 (RA3x.W3 c))) /\ (RA3x.publishedC3 c <= RA3x.pos3 (RA3x.C3 c) /\ (RA3x.det3 (RA3x.C3 c) = false -> RA3x.publishedC3 c = RA3x.pos3 (RA3x.C3 c))) /\ RA3x.publishedP3 c = RA3x.pos3 (RA3x.P3 c).
+Proof. exact RA3xproof.published_le_local_3x. Qed.
+Print Assumptions C12_published_le_local_three_stages.
+
